@@ -10,7 +10,7 @@ CHECK = {
              'equal the sequence observed through the callback and the interposed allocator; get()/unique()/lock results and '
              'the number of live library blocks are audited after every call; every history ends by resetting everything '
              '(no live block may remain). Distinct = canonical ownership states (which pointer refers to which allocation, '
-             'dead/alive) with >= 2 references. Ownership graphs: managed blocks that embed 1-4 shared pointers and a weak pointer to OTHER allocations and reset them in their clear callback (chains to 400 / 1000 blocks, fans, diamonds, back-pointing weak references; own closure scopes and every random history): the predicted event sequence is nested (an inner block is destroyed inside the outer clear callback, exactly when its last owner is reset).'),
+             'dead/alive) with >= 2 references. Repetition: 24 cases in which ONE allocation (live / expired; re-targeted; with a crowd of 70 000 weak references) sees 70 000 (thorough 300 000) cycles each of lock+reset, failed lock, share+reset, weak_from+weak_reset, swaps, unique() polls and mixtures, every call under the exact-event oracle, full audit at 2^k and 2^k +- 1; a call that yields 2^20 times single-threaded is a hang. Ownership graphs: managed blocks that embed 1-4 shared pointers and a weak pointer to OTHER allocations and reset them in their clear callback (chains to 400 / 1000 blocks, fans, diamonds, back-pointing weak references; own closure scopes and every random history): the predicted event sequence is nested (an inner block is destroyed inside the outer clear callback, exactly when its last owner is reset).'),
     'assumptions': ['self-share / self-swap (a == b) are outside the domain; every allocation request succeeds (failures are C16)',
                     'documented "destination is reset first" semantics for share/lock/from/alloc',
                     'the managed block is the one get() returns; the other block allocated by shared alloc is the bookkeeping block'],
